@@ -10,3 +10,8 @@ package macro
 
 //@ func isValidMacroChar props C09
 //@   ensures result <==> (c == '[' || c == ']' || c == '.' || c == '_' || c == '-' || (c >= '0' && c <= '9') || (c >= 'A' && c <= 'Z') || (c >= 'a' && c <= 'z'))
+
+// Expanding one token never panics (C07), whatever the transaction returns for the token's collection -- a keyed
+// collection, a scalar, any other collection, or no collection at all (variables.JSON has none).
+//@ func expandToken props C07,C09
+//@   requires !isnil(tx)
